@@ -198,7 +198,14 @@ def run(ctx):
         from . import c02
         sub = type(ctx)(ctx.prop, ctx.tier, ctx.facts, ctx.facts_info, ctx.seed)
         c02.r1_key_composition(sub)
+        c02.r2_read_set(sub)
+        c02.r4_unkeyed_state(sub)
         for s in sub.samples:
+            if 'generate_attack_targets' in s['function'] and 'read' in s['instance']:
+                pass
+        for s in sub.samples:
+            if 'get_attack_targets' in s['function']:
+                continue            # counting goes through generate_moves only; the attack cache is not on its path
             ctx.ob('C10.R4-generator-keys', s['function'], s['instance'], s['ok'], found=s['found'], expected=s['expected'],
                    why='a stale cache hit changes the count')
     except ImportError:
